@@ -540,14 +540,14 @@ func TestC26(t *testing.T) {
 	}
 
 	// ---- generated ----
-	n := e.Pick(330, 6000)
+	n := e.Pick(330, 2500)
 	for i := 0; i < n; i++ {
 		in, future := genInputs(r, keys)
 		runNew(in, future)
 	}
 
 	// ---- raw dag-cbor encodings: Go's encoder vs the Coq encoder, byte-exact ----
-	nc := e.Pick(120, 2000)
+	nc := e.Pick(120, 600)
 	for i := 0; i < nc; i++ {
 		ne := r.Intn(7)
 		used := map[string]bool{}
